@@ -14,6 +14,8 @@ elif [ "${ROUND:-1}" = 4 ]; then
   SRC="/tmp/w4_$P/mutation/m$K"; TAG="r4m$K"
 elif [ "${ROUND:-1}" = 5 ]; then
   SRC="/tmp/w5_$P/mutation/m$K"; TAG="r5m$K"
+elif [ "${ROUND:-1}" = 6 ]; then
+  SRC="/tmp/w6_$P/mutation/m$K"; TAG="r6m$K"
 else
   SRC="/tmp/wt_$P/mutation/m$K"; TAG="m$K"
 fi
